@@ -368,10 +368,8 @@ func runSCIONServer(ctx context.Context, log *slog.Logger, mtrcs *scionServerMet
 								authBuf,
 								authMAC,
 							)
-							if err != nil {
-								panic(err)
-							}
-							authenticated = subtle.ConstantTimeCompare(scion.PacketAuthOptMAC(authOpt), authMAC) != 0
+							authenticated = err == nil &&
+								subtle.ConstantTimeCompare(scion.PacketAuthOptMAC(authOpt), authMAC) != 0
 							if !authenticated {
 								log.LogAttrs(ctx, slog.LevelInfo, "failed to authenticate packet")
 								continue
